@@ -51,7 +51,7 @@ def tracked(it, self):
 
 
 # ------------------------------------------------------------------ C10 + C31: a timed post and its thread
-def t_timed_post(kind):
+def t_timed_post(kind, may_cancel=False):
     mname = 'post_fifo' if kind == 'fifo' else 'post_lifo'
 
     def run(it):
@@ -106,7 +106,7 @@ def t_timed_post(kind):
                     tags=('C10', 'C31', 'C11', 'C12'))
             # ---- now the thread body itself, on the virtual clock, assuming nobody else clears this source's flag
             c.pyghost['runner'] = {'d0': d_exp, 'period': p.e, 'kind': sval(c.to_ref(rd('queue_type'))), 'event': e.e,
-                                   'n': n_exp}
+                                   'n': n_exp, 'may_cancel': may_cancel, 'run_event': rd('task_run_event').e}
             try:
                 it.call_func(tgt, list(args), {})
                 ended = True
@@ -117,7 +117,10 @@ def t_timed_post(kind):
                     return
                 raise
             c.prove('runner:post/posted-exactly-the-requested-number-of-times',
-                    z3.And(n_exp >= 1, g['g_posts'] == n_exp), tags=('C10',))
+                    z3.Implies(z3.Not(g['g_cancelled']), z3.And(n_exp >= 1, g['g_posts'] == n_exp)), tags=('C10',))
+            if may_cancel:
+                c.prove('runner:cancel/a-cancelled-source-ends-having-posted-no-more-than-requested',
+                        z3.Implies(n_exp >= 1, g['g_posts'] <= n_exp), tags=('C11', 'C12'))
             c.prove('runner:post/every-post-to-the-requested-end-of-the-queue',
                     z3.And(g['g_kinds_ok'], c.pyghost['runner']['kind'] == c.strconst(kind)), tags=('C10',))
             c.cover('%s:timed/cover-finished' % mname)
@@ -136,7 +139,7 @@ def t_timed_post(kind):
                         z3.Select(items0, j), 'PostedEvent.task_run_event')) == z3.Select(flag_arr0, c.hget(
                             z3.Select(items0, j), 'PostedEvent.task_run_event')))), tags=('C31',))
             c.cover('%s:rejected/cover' % mname)
-    return Target('timed-%s' % mname, run, [AO + mname, AO + '__post_event',
+    return Target('timed-%s%s' % (mname, '[may be cancelled while it sleeps]' if may_cancel else ''), run, [AO + mname, AO + '__post_event',
                                             AO + '__post_event.post_event_thread_runner'])
 
 
